@@ -120,6 +120,16 @@ func workloads() []workload {
 				return mk(p, [4]string{"A1", "P", "1", "M0"}, [4]string{"B1", "P", "2", "M2"}, [4]string{"B2x", "B1", "2", "M2"},
 					[4]string{"A2", "A1", "1", "M1"}, [4]string{"A3", "A2", "1", ""})
 			}},
+		// a side branch with an invalid-when-connected block in its middle is stored over several
+		// events, the active chain grows in between (so their records interleave in the files); only
+		// the last side block triggers the reorganisation that fails and flags the whole side branch.
+		// After a crash in between, the flags are written for blocks that were loaded from disk.
+		{name: "W8-stored-invalid-side-branch-flagged-by-a-later-failed-reorg", events: []string{"A1", "A2", "A3", "X1", "X2", "X3", "A4", "idle", "X4", "X5x", "close"},
+			blocks: func(p *chainx.Prefix) ([]string, []*reftx.Block) {
+				return mk(p, [4]string{"A1", "P", "1", "M0"}, [4]string{"A2", "A1", "1", "M1"}, [4]string{"A3", "A2", "1", ""},
+					[4]string{"X1", "P", "2", "M2"}, [4]string{"X2", "X1", "2", "M2"}, [4]string{"X3", "X2", "2", ""},
+					[4]string{"A4", "A3", "1", ""}, [4]string{"X4", "X3", "2", ""}, [4]string{"X5x", "X4", "2", ""})
+			}},
 		{name: "W5-side-branch-during-snapshot", events: []string{"A1", "A2", "idle-nowait", "B1", "idle", "A3", "close"},
 			blocks: func(p *chainx.Prefix) ([]string, []*reftx.Block) {
 				return mk(p, [4]string{"A1", "P", "1", "M0"}, [4]string{"A2", "A1", "1", "M1"}, [4]string{"B1", "P", "2", "M2"}, [4]string{"A3", "A2", "1", ""})
@@ -133,6 +143,9 @@ func deliverClient(ch *chain.Chain, raw []byte) string {
 	bl, err := btc.NewBlock(append([]byte{}, raw...))
 	if err != nil {
 		return "refused: NewBlock: " + err.Error()
+	}
+	if discardedBlocks[bl.Hash.Hash] {
+		return "refused: check: header of a discarded block" // ProcessNewHeader
 	}
 	ch.BlockIndexAccess.Lock()
 	_, later, err := ch.CheckBlock(bl)
@@ -148,13 +161,33 @@ func deliverClient(ch *chain.Chain, raw []byte) string {
 	}
 	node := ch.AcceptHeader(bl)
 	ch.BlockIndexAccess.Unlock()
+	// HandleNetBlock: a block below a refused one is dropped (network.DiscardedBlocks lives as long
+	// as the process), one with incomplete ancestry is held back
+	if discardedBlocks[node.Parent.BlockHash.Hash] {
+		discardedBlocks[node.BlockHash.Hash] = true
+		return "refused: accept: parent discarded"
+	}
+	if !ch.HasAllParents(node) {
+		return "refused: accept: held back, ancestry incomplete"
+	}
 	ch.Unspent.AbortWriting()
 	ch.Blocks.BlockAdd(node.Height, bl)
 	bl.LastKnownHeight = node.Height
 	if err := ch.CommitBlock(bl, node); err != nil {
+		discardBlock(node)
 		return "refused: accept: " + err.Error()
 	}
 	return "ok"
+}
+
+// discardedBlocks mirrors network.DiscardedBlocks (per process, not persisted).
+var discardedBlocks = map[[32]byte]bool{}
+
+func discardBlock(n *chain.BlockTreeNode) {
+	for _, c := range n.Childs {
+		discardBlock(c)
+	}
+	discardedBlocks[n.BlockHash.Hash] = true
 }
 
 func waitSnapshot(ch *chain.Chain, dir string) {
@@ -213,6 +246,9 @@ func recoverMain(dir string, blocksFile string, libDefault bool) {
 			if last != end {
 				last = last.FindFirstFather(end)
 			}
+			// do_the_blocks only queues the stored blocks; each one then goes through HandleNetBlock,
+			// which drops a block whose parent was refused (CheckParentDiscarded / DiscardBlock) and
+			// holds back one whose ancestry is incomplete (HasAllParents) before LocalAcceptBlock
 			for last != end {
 				nxt := last.FindPathTo(end)
 				if nxt == nil {
@@ -221,6 +257,17 @@ func recoverMain(dir string, blocksFile string, libDefault bool) {
 				if nxt.BlockSize == 0 {
 					step("BlockSize is zero - corrupt database")
 					break
+				}
+				if discardedBlocks[nxt.Parent.BlockHash.Hash] {
+					discardedBlocks[nxt.BlockHash.Hash] = true
+					step("catch-up: block " + fmt.Sprint(nxt.Height) + " dropped, its parent was refused")
+					last = nxt
+					continue
+				}
+				if !ch.HasAllParents(nxt) {
+					step("catch-up: block " + fmt.Sprint(nxt.Height) + " held back, ancestry incomplete")
+					last = nxt
+					continue
 				}
 				crec, trusted, _ := ch.Blocks.BlockGetInternal(nxt.BlockHash, true)
 				if crec == nil || crec.Data == nil {
@@ -246,6 +293,7 @@ func recoverMain(dir string, blocksFile string, libDefault bool) {
 				bl.LastKnownHeight = end.Height
 				if er := ch.CommitBlock(bl, nxt); er != nil {
 					step("catch-up CommitBlock " + fmt.Sprint(nxt.Height) + ": " + er.Error())
+					discardBlock(nxt)
 				}
 				last = nxt
 			}
@@ -376,6 +424,7 @@ func main() {
 		jb, _ := json.Marshal(raws)
 		os.WriteFile(bf, jb, 0o644)
 
+		discardedBlocks = map[[32]byte]bool{} // each workload is its own process lifetime
 		// ---- record the workload ----
 		dir := filepath.Join(scratch, w.name+"-real")
 		ev.CopyDir(p.Dir, dir)
@@ -472,6 +521,13 @@ func main() {
 						extra := []string{"--blocks", bf, "--maxfile", fmt.Sprint(w.maxfile), "--keep", fmt.Sprint(w.keep)}
 						if variant == "libdefault" {
 							extra = append(extra, "--libdefault")
+						}
+						if kc := os.Getenv("C07_KEEPCUT"); kc != "" && kc == fmt.Sprint(j.cut.N) {
+							// debugging aid: keep the crashed directory and the blocks file of this cut
+							kd := fmt.Sprintf("/tmp/c07cut-%d-%d", j.cut.N, j.cut.Torn)
+							ev.CopyDir(d, kd)
+							b, _ := os.ReadFile(bf)
+							os.WriteFile(kd+".blocks.json", b, 0o644)
 						}
 						res := crashfs.Recover(d, extra, 120*time.Second)
 						os.RemoveAll(d)
